@@ -38,7 +38,25 @@ func (c *Ctx) dependsOn(v ssa.Value, target func(ssa.Value) bool, depth int, see
 	case *ssa.Alloc:
 		// anything stored into it or its fields
 		return c.storesDepend(x, target, depth, seen)
-	case *ssa.Parameter, *ssa.Const, *ssa.Global, *ssa.Function, *ssa.Builtin:
+	case *ssa.Parameter:
+		// a helper's parameter depends on whatever its synchronous callers pass (may-dependence)
+		fn := x.Parent()
+		if c.P.roots != nil && c.P.roots[fn] {
+			return false
+		}
+		idx := -1
+		for i, q := range fn.Params {
+			if q == x {
+				idx = i
+			}
+		}
+		for _, s := range c.P.syncCallers(fn) {
+			if idx >= 0 && idx < len(s.Common().Args) && c.dependsOn(s.Common().Args[idx], target, depth+1, seen) {
+				return true
+			}
+		}
+		return false
+	case *ssa.Const, *ssa.Global, *ssa.Function, *ssa.Builtin:
 		return false
 	}
 	in, ok := v.(ssa.Instruction)
